@@ -1,4 +1,5 @@
 """C08 — reference resolution terminates: cycles are errors, everything else resolves."""
+import json
 from ..gens import *
 from . import c02
 
@@ -157,6 +158,7 @@ def gen(rng, tier):
         c["_sig"] = "%s|%d" % (kind, len(names))
         yield c
     yield from list_graph_cases(rng.fork("lists"), tier)
+    yield from rectarget_cases(rng.fork("rectarget"), tier)
     yield from reread_cases(rng.fork("reread"), tier)
 
 
@@ -226,6 +228,70 @@ def list_graph_cases(rng, tier):
         yield {"k": "eval", "from": frm, "opts": copts, "merges": merges, "ropts": copts, "reads": rd + extra,
                "expect": ex + [None, None, None, ({"anyerr": True} if reads[0][1] == "err" else {"ok": {"s": reads[0][1]}})], "repeat": 2,
                "_tag": "graph/lists-after-merge", "_nt": True, "_sig": "listgraph|%d|%d" % (shape, len(merges))}
+
+
+def rectarget_cases(rng, tier):
+    """recursive Go target types (hand-written in the worker: struct through a pointer, map of itself, list of itself,
+    struct through slices and maps): references that lead back to an enclosing object are reported as cyclic by Unpack,
+    finite nestings - also reached through references - come out as they are"""
+    co = [opt("PathSep", "."), opt("VarExp")]
+    for i in range(80 if tier == "quick" else 800):
+        shape = rng.below(9)
+        n = 1 + rng.below(9)
+        want = "cyclic"
+        merges = []
+        if shape == 0:      # a: {b: ${a}}
+            frm = M([("a", M([("b", S("${a}")), ("n", U(n))]))])
+        elif shape == 1:    # two levels down, back to the top object
+            frm = M([("a", M([("n", U(n)), ("b", M([("n", U(2)), ("b", S("${a}"))]))]))])
+        elif shape == 2:    # a map of itself
+            frm = M([("m", M([("k", M([("up", S("${m}"))]))]))])
+        elif shape == 3:    # a list of itself
+            frm = M([("l", A([A([]), S("${l}")]))])
+        elif shape == 4:    # through slices and maps of a struct, closed by a later merge
+            frm = M([("s", M([("n", U(n)), ("kids", A([M([("n", U(1)), ("by", M([("x", S("${back}"))]))])]))]))])
+            merges = [{"b": M([("back", S("${s}"))]), "opts": co}]
+        elif shape == 5:    # not a cycle: a reference to a finite sibling object, used twice
+            want = {"a": {"n": n, "b": {"n": 7, "b": {"n": 7, "b": None}}}, "m": None, "l": None, "s": {"n": 0, "kids": [], "by": {}}}
+            frm = M([("a", M([("n", U(n)), ("b", S("${t}"))])), ("t", M([("n", U(7)), ("b", S("${u}"))])), ("u", M([("n", U(7))]))])
+        elif shape == 6:    # not a cycle: plain nesting
+            want = {"a": {"n": 0, "b": None}, "m": {"k": {"j": {}}}, "l": [[], [[]]], "s": {"n": n, "kids": [{"n": 1, "kids": [], "by": {}}], "by": {}}}
+            frm = M([("m", M([("k", M([("j", M([]))]))])), ("l", A([A([]), A([A([])])])), ("s", M([("n", U(n)), ("kids", A([M([("n", U(1))])]))]))])
+        elif shape == 7:    # the cycle runs through two references
+            frm = M([("a", M([("n", U(n)), ("b", S("${t}"))])), ("t", M([("n", U(2)), ("b", S("${a.b}"))]))])
+        else:               # a reference to an enclosing object from inside a map of a struct
+            frm = M([("s", M([("by", M([("k", M([("kids", A([S("${s}")]))]))]))]))])
+        if shape in (6,) and rng.chance(0.5):
+            co2 = []
+        else:
+            co2 = co
+        yield {"k": "rectarget", "from": frm, "copts": co2, "merges": merges, "uopts": co2, "want": want,
+               "_tag": "rectarget/%d" % shape, "_nt": True, "_sig": "rectarget|%d|%d" % (shape, n % 3)}
+
+
+def normalize_pair(case, impl, model):
+    if case.get("k") == "rectarget":
+        return {"unmodelled": True}, {"unmodelled": True}      # decided by the oracle on the implementation's result
+    return normalize_result(case, impl), normalize_result(case, model)
+
+
+def oracle(case, impl, model):
+    if case.get("k") != "rectarget":
+        return None
+    if not isinstance(impl, dict):
+        return (False, "no result")
+    if any(k in impl for k in ("panic", "fatal", "timeout")):
+        return (False, "Unpack into a recursive target type did not return: " + json.dumps(impl)[:160])
+    want = case.get("want")
+    if want == "cyclic":
+        if "err" not in impl:
+            return (False, "the configuration refers back to an enclosing object, Unpack reported no error")
+        return (True, "")
+    if "ok" not in impl:
+        return (False, "a finite configuration was refused: " + json.dumps(impl)[:160])
+    if impl["ok"] != want:
+        return (False, "a finite configuration came out differently: " + json.dumps(impl["ok"])[:200])
+    return (True, "")
 
 
 def normalize_result(case, res):
